@@ -7,7 +7,8 @@ CONSTANTS
   Handles <- QA_Handles
   DepSets <- QA_DepSets
   HandlerSeqs <- QA_HSeqs
-  UpRegs <- QA_UpRegs
+  UpProgs <- QA_UpProgs
+  CRProg <- QA_CR
   QuitOn = FALSE
   QuitDeferred = FALSE
   DefCap = 0
@@ -23,4 +24,5 @@ PROPERTY ExactlyOnce
 PROPERTY FiredForever
 PROPERTY NeverEarly
 PROPERTY LifeLogged
+PROPERTY CROnce
 CHECK_DEADLOCK FALSE
